@@ -101,6 +101,14 @@ class Spec:
                 self.bind(arm["p"], c, env2)
                 return self.cev(arm["b"], env2, depth)
             return None
+        if k == "Call" and n.get("n") in ("any", "all") and len(n.get("a", [])) == 2 and T.peel(n["a"][1]).get("k") == "Closure":
+            # a predicate that has the same constant value for every element (scenario: the collection is not empty)
+            c = self.F.by_path.get(T.peel(n["a"][1]).get("d"))
+            if c is not None:
+                r = self.cev(c["body"], env, depth + 1)
+                if r and r[0] == "bool":
+                    return r
+            return None
         if k == "Call" and depth < self.max_depth:
             g = self.F.by_path.get(n.get("r") or "") or self.F.by_path.get(n.get("f") or "")
             if g is not None and g.get("dk") in ("Fn", "AssocFn") and len(g["params"]) == len(n.get("a", [])):
